@@ -33,6 +33,9 @@ CATALOG = {
     },
     "C04": {
         "drivers": [("align", {"quick": 400, "thorough": 20000}, {})],
+        "models": [{"module": "MC_Align", "cfg": {"quick": "MC_Align_quick", "thorough": "MC_Align_thorough"},
+                    "extract": "align_vectors", "replay": "run_align_vector", "chunk": 60,
+                    "limit": {"quick": 4200, "thorough": 150000}}],
     },
     "C05": {
         "drivers": [("divide", {"quick": 100, "thorough": 5000}, {})],
@@ -118,6 +121,9 @@ CATALOG = {
     },
     "C13": {
         "drivers": [("roundtrip", {"quick": 300, "thorough": 15000}, {})],
+        "models": [{"module": "MC_Roundtrip", "cfg": {"quick": "MC_Roundtrip_quick", "thorough": "MC_Roundtrip_thorough"},
+                    "extract": "roundtrip_vectors", "replay": "run_roundtrip_vector", "chunk": 80,
+                    "limit": {"quick": 4500, "thorough": 30000}}],
     },
     "C14": {
         "drivers": [("options", {"quick": 400, "thorough": 20000}, {})],
